@@ -525,6 +525,18 @@ class DiskProp(object):
         streams = {i: RD.expected_stream(m) for i, m in enumerate(model)}
         baseline = None if st["tool_only"] else st["baseline"]
         problems = RD.fsck(st["img"], streams, baseline=baseline)
+        # the directory entry, read the way Disk BASIC lays it out, describes the stored file
+        entries = RD.live_entries(st["img"])
+        if len(entries) == len(model):
+            for e, m in zip(entries, model):
+                want = (RD.norm_name(m["name"]), RD.norm_ext(m.get("ext", "")), m["ftype"], m["dtype"])
+                got = (RD.norm_name(e["name"]), RD.norm_ext(e["ext"]), e["ftype"], e["dtype"])
+                if got != want:
+                    problems.append(("direntry", "entry %d holds name/ext/type/ascii %r, the stored file is %r" % (e["slot"], got, want)))
+                if e["name"] != e["name"].upper() or len(e["name"]) != 8:
+                    problems.append(("direntry", "entry %d name field %r is not 8 upper-case characters" % (e["slot"], e["name"])))
+        else:
+            problems.append(("direntry", "%d directory entries in use, %d files stored" % (len(entries), len(model))))
         for clause, text in problems[:3]:
             res.violate("FSCK:" + clause, text, k)
         if not problems:
